@@ -110,6 +110,7 @@ Definition parse_op (l : list Z) : option op :=
   | [1; p] => Some (Connect (Nz p))
   | [2; p] => Some (Disconnect (Nz p))
   | [4; p; c] => Some (Probe (Nz p) (Nz c))
+  | 5 :: p :: _ => Some (Opaque (Nz p))        (* [5 p n b1..bn]: the payload bytes are the implementation's only *)
   | 3 :: p :: n :: r =>
       match skipn (Z.to_nat n) r with
       | [0] => Some (Inbound (Nz p) None)
